@@ -81,6 +81,12 @@ impl Pattern {
     pub fn regex_with(pattern: &str, opts: &PatternOpts) -> Result<Pattern, PatternError> {
         let pattern = pattern.trim_start_matches('^');
         let pattern = pattern.trim_end_matches('$');
+        Self::from_unanchored_regex(pattern, opts)
+    }
+
+    /// Creates `Pattern` instance from a regular expression given without the `^` and `$`
+    /// anchors. The expression is taken verbatim, e.g. it may end with an escaped `$`.
+    fn from_unanchored_regex(pattern: &str, opts: &PatternOpts) -> Result<Pattern, PatternError> {
         let pattern = pattern.to_string();
 
         let anchored_regex = "^".to_string() + &pattern + "$";
@@ -104,7 +110,7 @@ impl Pattern {
     /// Creates a `Pattern` that matches literal string. Case insensitive.
     /// Special characters in the string are escaped before creating the underlying regex.
     pub fn literal(s: &str) -> Pattern {
-        Self::regex(escape(s).as_str()).unwrap()
+        Self::from_unanchored_regex(escape(s).as_str(), &PatternOpts::default()).unwrap()
     }
 
     /// Creates `Pattern` instance from a Unix extended glob.
@@ -134,7 +140,7 @@ impl Pattern {
     pub fn glob_with(glob: &str, opts: &PatternOpts) -> Result<Pattern, PatternError> {
         let result: IResult<&str, String> = Self::glob_to_regex(Scope::TopLevel, glob);
         match result {
-            Ok(("", regex)) => Self::regex_with(regex.as_str(), opts),
+            Ok(("", regex)) => Self::from_unanchored_regex(regex.as_str(), opts),
             Ok((remaining, _)) => Err(PatternError {
                 input: glob.to_string(),
                 cause: format!(
@@ -285,7 +291,8 @@ impl Add<Pattern> for Pattern {
     type Output = Pattern;
 
     fn add(self, rhs: Pattern) -> Self::Output {
-        Pattern::regex((self.to_string() + &rhs.to_string()).as_str()).unwrap()
+        let regex = self.to_string() + &rhs.to_string();
+        Pattern::from_unanchored_regex(regex.as_str(), &PatternOpts::default()).unwrap()
     }
 }
 
